@@ -358,7 +358,7 @@ func classifyProg(c ProgCase, labels []string) (bool, []string) {
 }
 
 func TestRoundTrip(t *testing.T) {
-	harness.Rapid(t, harness.N(8000, 16*40000), func(t *rapid.T) {
+	harness.Rapid(t, harness.N(8000, 16*80000), func(t *rapid.T) {
 		c, labels := genProgCase(t)
 		nt, labels := classifyProg(c, labels)
 		subRound.See(c, nt, harness.HashJSON(c), labels...)
@@ -465,7 +465,7 @@ func checkTranscode(c StreamCase) error {
 var subTrans = harness.Define("transcode", "decoder-accepted streams (generated in arbitrary spellings, possibly ending inside a path; mutated corpus files; corpus) decoded into an Encoder (plain = low resolution, and resolution-preserving): Bytes succeeds, re-encoding decodes to the same operations under the rule, and a second transcoding is byte-identical; non-trivial = accepted, at least one path, not a verbatim corpus file", checkTranscode)
 
 func TestTranscodeGenerated(t *testing.T) {
-	harness.Rapid(t, harness.N(8000, 16*40000), func(t *rapid.T) {
+	harness.Rapid(t, harness.N(8000, 16*80000), func(t *rapid.T) {
 		b, want, open := gen.Stream(t, gen.StreamCfg{AllowOpen: true, MaxRun: 50})
 		c := StreamCase{Bytes: b}
 		labels := []string{"accepted"}
@@ -485,7 +485,7 @@ func TestTranscodeGenerated(t *testing.T) {
 
 func TestTranscodeMutated(t *testing.T) {
 	all := corpus.All()
-	harness.Rapid(t, harness.N(6000, 16*20000), func(t *rapid.T) {
+	harness.Rapid(t, harness.N(6000, 16*40000), func(t *rapid.T) {
 		f := all[rapid.IntRange(0, len(all)-1).Draw(t, "file")].Data
 		g := all[rapid.IntRange(0, len(all)-1).Draw(t, "file2")].Data
 		b := gen.Mutate(t, f, g)
